@@ -1,0 +1,9 @@
+//go:build verif
+
+package rueidis
+
+import "bufio"
+
+// Exported wrapper for /verif's codec harness (compiled only with -tags verif).
+
+func VerifFlushCmd(o *bufio.Writer, cmd []string) error { return flushCmd(o, cmd) }
